@@ -633,31 +633,29 @@ func (c *Ctx) elementFreshRule(r *Report, rule string) {
 			for _, ci := range collectors[o] {
 				S[ci.Block()] = true
 			}
-			// forward reachability inside the loop body without re-entering the header
-			memo := map[*ssa.BasicBlock]int{}
-			var reachS func(b *ssa.BasicBlock) bool
-			reachS = func(b *ssa.BasicBlock) bool {
-				if S[b] {
-					return true
+			// blocks of the loop body from which a collecting block can be reached without re-entering the header
+			// (backward closure over predecessor edges; inner loops are cycles, so no memoised recursion)
+			canReach := map[*ssa.BasicBlock]bool{}
+			var work []*ssa.BasicBlock
+			for b := range S {
+				canReach[b] = true
+				work = append(work, b)
+			}
+			for len(work) > 0 {
+				b := work[len(work)-1]
+				work = work[:len(work)-1]
+				if b == li.header {
+					continue // paths into the header from the back edge belong to the next iteration
 				}
-				if v, ok := memo[b]; ok {
-					return v == 1
-				}
-				memo[b] = 2
-				res := false
-				for _, s2 := range b.Succs {
-					if s2 == li.header || !li.body[s2] {
+				for _, p := range b.Preds {
+					if !li.body[p] || canReach[p] {
 						continue
 					}
-					if reachS(s2) {
-						res = true
-					}
+					canReach[p] = true
+					work = append(work, p)
 				}
-				if res {
-					memo[b] = 1
-				}
-				return res
 			}
+			reachS := func(b *ssa.BasicBlock) bool { return canReach[b] }
 			key := fmt.Sprintf("%s: element allocated at %s", c.FuncName(fn), c.SrcExpr(o))
 			if S[o.Block()] {
 				// collected in the block that allocates it: only when the collecting instruction comes later
